@@ -146,12 +146,14 @@ Definition from_dict (j : jdict) : option queue :=
 (* ---- operations and observable results, for op sequences *)
 Inductive op :=
 | OAdd (x : item) | OAddMany (xs : list item) | OGet | OCurrent (t : Z)
-| OLen | OEmpty | OLast | OJson.
+| OLen | OEmpty | OLast | OJson
+| OQueue.                                   (* the `queue` property: the raw array *)
 
 Inductive result :=
 | RNone | REvent (x : item) | RIndexError | REvents (l : list item)
 | RLen (n : Z) | RBool (b : bool) | RLast (o : option Z)
-| RJson (o : option (Z * list item)).        (* the restored (_timestep, _queue); None = KeyError *)
+| RJson (o : option (Z * list item))         (* the restored (_timestep, _queue); None = KeyError *)
+| RQueue (l : list item).
 
 Definition step (q : queue) (o : op) : queue * result :=
   match o with
@@ -169,6 +171,7 @@ Definition step (q : queue) (o : op) : queue * result :=
              | Some q' => (q', RJson (Some (q_timestep q', q_queue q')))
              | None => (q, RJson None)
              end
+  | OQueue => (q, RQueue (q_queue q))
   end.
 
 Fixpoint run (q : queue) (ops : list op) : queue * list result :=
@@ -212,6 +215,7 @@ Definition result_eqb (a b : result) : bool :=
   | RLast x, RLast y => option_eqb Z.eqb x y
   | RJson x, RJson y =>
       option_eqb (fun p r => Z.eqb (fst p) (fst r) && list_eqb item_eqb (snd p) (snd r)) x y
+  | RQueue l, RQueue m => list_eqb item_eqb l m
   | _, _ => false
   end.
 
